@@ -9,7 +9,7 @@ character per segment the prefixes alone are decoded back to a shape.
 from __future__ import annotations
 
 from .. import gen
-from ..core import CaseTimeout, case_deadline, rng_for, short_tb
+from ..core import CaseTimeout, case_deadline, rng_for, short_tb, note_exc
 
 PROP = "C16"
 LEVEL = "exploration"
@@ -321,7 +321,7 @@ def run_case(case, res):
         res.inconc("case watchdog fired")
         return
     except Exception:
-        bad.append("harness/exception: " + short_tb())
+        note_exc(res, bad, "exception escaped from the library: ")
     if bad:
         res.violation(case, "; ".join(bad[:2]), n_bad=len(bad))
 
